@@ -522,6 +522,60 @@ def r_arg_sequence(chk, units, scope):
     return n_calls
 
 
+def r_forward_move(chk, units, scope):
+    """R-OWN.fwdmove: std::move applied to a FORWARDING reference.  A parameter declared `P &&` with P deduced is an
+    lvalue reference whenever the caller passes a named object; std::move on it moves out of the caller's object (the
+    library disturbs an operand: C14).  Decided on the instantiations: a parameter whose pattern type is a bare template
+    type parameter with `&&` and whose instantiated type is a NON-CONST LVALUE reference (reference collapsing happened),
+    handed to std::move.  std::forward<P> is the accepted idiom; a pattern type `T &&` instantiated as `X &&` is an
+    ordinary rvalue reference."""
+    rule = "R-OWN.fwdmove"
+    chk.rule(rule, "no std::move of a forwarding-reference parameter that is bound to the caller's lvalue (pattern type "
+                   "`P &&`, instantiated as a non-const lvalue reference): the callee would move from a named object of "
+                   "the caller; forwarding references are passed on with std::forward")
+    n_params = 0
+    for u in units:
+        pat_params = {}
+        pat_depth = {}
+        for d in u.decls.values():
+            if d["k"] == "fn" and d.get("dependent"):
+                key = (d.get("pfile"), d.get("pline"))
+                types = [p_["type"] for p_ in d["params"]]
+                depth = max([int(x) for x in re.findall(r"type-parameter-(\d+)-\d+", " ".join(types))] or [-1])
+                if key not in pat_params or depth > pat_depth.get(key, -2):
+                    pat_params[key], pat_depth[key] = types, depth
+        for f in u.funcs:
+            if f.dependent or not scope(f):
+                continue
+            pp = pat_params.get(f.pkey)
+            if not pp or len(pp) != len(f.decl["params"]):
+                continue
+            fwd = {}
+            for p_, pt in zip(f.decl["params"], pp):
+                if re.fullmatch(r"type-parameter-\d+-\d+ &&", pt.strip()):
+                    n_params += 1
+                    it = p_["type"].strip()
+                    if it.endswith("&") and not it.endswith("&&") and not it.startswith("const "):
+                        fwd[p_["id"]] = p_.get("name") or "?"
+            if not fwd:
+                continue
+            for n in f.all_nodes():
+                if n["k"] not in CALL_KINDS:
+                    continue
+                ci = call_info(u, n)
+                if ci is None or ci.decl is None or not ci.decl["qn"].startswith("std::move<") or not ci.args:
+                    continue
+                r = strip(ci.args[0])
+                if r is not None and r["k"] == "DeclRefExpr" and r.get("d") in fwd:
+                    chk.bad(rule, f.loc(n), f.pqn, "fwdmove:%s" % fwd[r["d"]],
+                            "std::move(%s): '%s' is a forwarding reference, bound to the caller's lvalue in the instantiation "
+                            "%s - the caller's object is moved from" % (fwd[r["d"]], fwd[r["d"]], f.qn[:140]),
+                            witness=dict(function=f.qn, unit=u.name))
+    chk.ok(rule, "include/bspline", "%d forwarding-reference parameters in the instantiated library functions: none is "
+           "handed to std::move while bound to an lvalue" % n_params, key="fwdmove")
+    return n_params
+
+
 def _moved_var(u, a):
     """(decl id, name) if the argument expression move-constructs the parameter from std::move(<variable>)."""
     for m in walk(a):
